@@ -56,20 +56,20 @@ def finalize(agg, tier):
     return r
 
 
-def build_reply(name: str) -> bytes:
+def build_reply(name: str, call_id: int = 1) -> bytes:
     ack_results2 = [(0, 0, rrpc.NDR64[0], 1), (3, 3, uuid.UUID(int=0), 0)]
     if name == "bind_ack_small":
-        return rrpc.encode(dict(ptype=rrpc.BIND_ACK, flags=FL, call_id=1, auth=None, max_xmit=5840, max_recv=5840, assoc=0x1234, sec_addr="135", results=[(0, 0, rrpc.NDR64[0], 1)]))
+        return rrpc.encode(dict(ptype=rrpc.BIND_ACK, flags=FL, call_id=call_id, auth=None, max_xmit=5840, max_recv=5840, assoc=0x1234, sec_addr="135", results=[(0, 0, rrpc.NDR64[0], 1)]))
     if name == "bind_ack_big":
-        return rrpc.encode(dict(ptype=rrpc.BIND_ACK, flags=FL | 4, call_id=1, auth=dict(type=10, level=6, pad=0, ctx=0, token=b"S" * 40), max_xmit=5840, max_recv=5840, assoc=0x1234, sec_addr="49668", results=ack_results2))
+        return rrpc.encode(dict(ptype=rrpc.BIND_ACK, flags=FL | 4, call_id=call_id, auth=dict(type=10, level=6, pad=0, ctx=0, token=b"S" * 40), max_xmit=5840, max_recv=5840, assoc=0x1234, sec_addr="49668", results=ack_results2))
     if name == "alter_context_resp":
-        return rrpc.encode(dict(ptype=rrpc.ALTER_CONTEXT_RESP, flags=FL | 4, call_id=1, auth=dict(type=10, level=6, pad=0, ctx=0, token=b"T" * 9), max_xmit=5840, max_recv=5840, assoc=0x1234, sec_addr="", results=[(0, 0, rrpc.NDR64[0], 1)]))
+        return rrpc.encode(dict(ptype=rrpc.ALTER_CONTEXT_RESP, flags=FL | 4, call_id=call_id, auth=dict(type=10, level=6, pad=0, ctx=0, token=b"T" * 9), max_xmit=5840, max_recv=5840, assoc=0x1234, sec_addr="", results=[(0, 0, rrpc.NDR64[0], 1)]))
     if name.startswith("second_response_"):
         n = int(name.rsplit("_", 1)[1])
-        return rrpc.encode(dict(ptype=rrpc.RESPONSE, flags=FL, call_id=1, auth=None, alloc_hint=n, ctx_id=0, cancel_count=0, stub=bytes((i * 11 + 9) & 0xFF for i in range(n))))
+        return rrpc.encode(dict(ptype=rrpc.RESPONSE, flags=FL, call_id=call_id, auth=None, alloc_hint=n, ctx_id=0, cancel_count=0, stub=bytes((i * 11 + 9) & 0xFF for i in range(n))))
     if name.startswith("response_"):
         n = int(name.split("_")[1])
-        return rrpc.encode(dict(ptype=rrpc.RESPONSE, flags=FL, call_id=1, auth=None, alloc_hint=n, ctx_id=0, cancel_count=0, stub=bytes((i * 7 + 3) & 0xFF for i in range(n))))
+        return rrpc.encode(dict(ptype=rrpc.RESPONSE, flags=FL, call_id=call_id, auth=None, alloc_hint=n, ctx_id=0, cancel_count=0, stub=bytes((i * 7 + 3) & 0xFF for i in range(n))))
     if name.startswith("sealed_response_"):
         # a PKT_PRIVACY response sealed by the peer of the ScriptedContext (sequence number 0), header signing on
         import struct
@@ -81,12 +81,12 @@ def build_reply(name: str) -> bytes:
         padn = -len(stub) % 16
         body = stub + b"\xbb" * padn
         server = tr.ScriptedContext((), 0, 16)
-        header = rrpc.header(rrpc.RESPONSE, FL, 24 + len(body) + 8 + 16, 16, 1) + struct.pack("<IHBB", len(body), 0, 0, 0)
+        header = rrpc.header(rrpc.RESPONSE, FL, 24 + len(body) + 8 + 16, 16, call_id) + struct.pack("<IHBB", len(body), 0, 0, 0)
         trailer = struct.pack("<BBBBI", 10, 6, padn, 0, 0)
         res = server.wrap_iov([(iov.BufferType.sign_only, header), body, (iov.BufferType.sign_only, trailer), iov.BufferType.header], encrypt=True, qop=None)
         return header + res.buffers[1].data + trailer + res.buffers[3].data
     if name == "fault":
-        return rrpc.encode(dict(ptype=rrpc.FAULT, flags=FL, call_id=1, auth=None, alloc_hint=0, ctx_id=0, cancel_count=0, fault_flags=0, status=0x1C010003, stub=b""))
+        return rrpc.encode(dict(ptype=rrpc.FAULT, flags=FL, call_id=call_id, auth=None, alloc_hint=0, ctx_id=0, cancel_count=0, fault_flags=0, status=0x1C010003, stub=b""))
     raise ValueError(name)
 
 
@@ -127,14 +127,22 @@ class Scenario:
             i = state["n"]
             state["n"] += 1
             h.last = i == self.phase
+            cid = tr.call_id_of(data)  # a conforming server echoes the call id of the PDU it answers
             if i == self.phase:
-                return target
+                if cid == 1:
+                    return target
+                # same reply, same cut points, the client's call id (lengths do not depend on it)
+                fresh, out, off = build_reply(self.name, cid), [], 0
+                for c in target:
+                    out.append(fresh[off : off + len(c)])
+                    off += len(c)
+                return out
             if i == 0:
-                return [self.auth_ack if self.auth else self.plain_ack]
+                return [build_reply("bind_ack_big" if self.auth else "bind_ack_small", cid)]
             if i == 1 and self.sealed:
-                return [build_reply("alter_context_resp")]
+                return [build_reply("alter_context_resp", cid)]
             if i == 1 and self.second:
-                return [build_reply("response_100")]  # the first request's reply, in one piece
+                return [build_reply("response_100", cid)]  # the first request's reply, in one piece
             return []
 
         h.last = False
